@@ -230,6 +230,8 @@ def walk_eff(effs, loops=None, guards=None):
         e = x["e"]
         if e == "loop":
             yield from walk_eff(x["body"], loops + [x], guards)
+            if x.get("latch"):
+                yield from walk_eff(x["latch"], loops + [x], guards)
         elif e == "while":
             yield from walk_eff(x["body"], loops + [{"var": ("unk", "while"), "lo": ZERO, "hi": ZERO, "cmp": "?", "step": I(1)}], guards)
         elif e == "if":
